@@ -21,6 +21,8 @@ import re
 import cfg
 
 MUT_RE = re.compile(r"&mut |\*mut |Mut\b|MutexGuard|WriteGuard|Entry<|Drain<")
+HANDLE_RE = re.compile(r"^(&mut |&)?(core::cell::Ref(Mut)?<|lock_api::\S*Guard<|std::sync::\S*Guard<|alloc::rc::Rc<|"
+                       r"alloc::sync::Arc<|alloc::boxed::Box<|core::pin::Pin<)|^(&mut |&)(&mut |&)")
 DEEP_RE = re.compile(r"/#\d|\bdyn\b")          # opaque generic parameter / trait object: may forward to a pointer
 # extern functions that take a mutable handle but only hand out a pointer derived from it (the write, if any, happens
 # through the returned pointer, whose provenance is tracked)
@@ -334,6 +336,10 @@ class BodyInfo:
                         if not (nm and not nm.lstrip("<&'a mut").startswith("dora") and last(nm) in PROJECTION):
                             # anything but a std projection may return a pointer loaded from deeper inside its arguments
                             v = self.closure_of(v)
+                        elif c["a"] and c["a"][0][0] in ("c", "m") and \
+                                HANDLE_RE.match(B.locals[c["a"][0][1][0]][0]):
+                            # projecting through a guard / smart pointer yields a pointer into what the handle refers to
+                            v = v | self.deref(v)
                     if v and self._store(c["d"], v):
                         changed = True
 
